@@ -29,7 +29,9 @@ UNIT = {
         (r'memory_manager::', '', A),
         (r'printf\([^;]*;', ';', A), (r'printf\([^;]*;', ';', H),
         # the read-only list / grid accessors of the hole index are used through assumed contracts (list shape); the overloads returning references are not used here
-        (r'(?<![\w.])Next\(', 'Next_ro(', A), (r'(?<![\w.])Up\(', 'Up_ro(', A), (r'(?<![\w.])Down\(', 'Down_ro(', A),
+        (r'(?<![\w.])Next\(holes_current\)', 'Next_ro(holes_current)', A), (r'(?<![\w.])Up\(', 'Up_ro(', A), (r'(?<![\w.])Down\(', 'Down_ro(', A),
+        # the links of the large list are READ from the arena (real accessor); the list shape is assumed at the point of the read - unless the hole has just been re-filed (ghost g_refiled)
+        (r'INT next = Next\(curr\);', 'INT next = Next(curr); VERIF_LINK_OF(curr, next);', A),
     ],
     'forwarders': [
         (A, 'original_grid', 'isHole', r'^\{\s*return hole_manager<INT>::isHole\(h\);\s*\}$'),
@@ -46,8 +48,9 @@ UNIT = {
         dict(cls='original_grid', name='allocateFromArray', argc=1, cname='original_grid__allocateFromArray'),
         dict(cls='original_grid', name='clearHole', argc=2, cname='original_grid__clearHole'),
     ],
+    'extra_free': {'VERIF_LINK_OF': 'VERIF_LINK_OF'},
     'functions': [
-        hf('isHole'), hf('getHoleSize'),
+        hf('isHole'), hf('getHoleSize'), hf('readSlot'), af('Next', sel=r'^node_address h$', nth=0),
         af('requestChunk', where='out', loops=3),
     ],
     'stubs': [
